@@ -445,7 +445,7 @@ fn fam_table(ctx: &CaseCtx, cov: &mut Cov) -> CaseOut {
         }
         _ => {}
     }
-    let c = sut::decode(Entry::Lzma, &b.file, &o1, ReaderKind::Slice, &sink, &obs);
+    let c = sut::decode(Entry::Lzma, &b.file, &o1, ReaderKind::from_selector(case_hash(&[&b.file])), &sink, &obs);
     out.evals += 1;
     let got = sink.bytes();
     ctx.say(&b.desc);
